@@ -87,6 +87,10 @@ def make(case: dict[str, Any], keep: list[int] | None = None) -> tuple[EnOptConf
         "function_estimators": [{"method": case["estimator"]}],
         "samplers": [{"method": "design/fixed"}],
     }
+    if case.get("est_split"):  # the objectives alone use the estimator under test, the constraints a mean estimator of their own
+        cfg["function_estimators"].append({"method": "mean"})
+        cfg["objectives"]["function_estimators"] = [0] * k_n
+        cfg["nonlinear_constraints"]["function_estimators"] = [1] * c_n
     if case["filter"] == "sort":
         cfg["realization_filters"] = [{"method": "sort-objective", "options": {"sort": [0], "first": 0, "last": 0 if case["estimator"] == "mean" else 1}}]
         cfg["objectives"]["realization_filters"] = [0] * k_n
@@ -282,7 +286,7 @@ def exhaustive_shard(item: dict[str, Any]) -> Collector:
                 range(r_n + 1), range(1, p_n + 1), (0, 1, 2), ("mean", "stddev"), ("none", "sort", "cvar"), (False, True)):
             if est == "stddev" and r_n < 2:  # noqa: PLR2004
                 continue
-            case = normalise({"R": r_n, "P": p_n, "n": n, "K": 1, "C": 2, "mask": list(mask), "rmin": rmin, "pmin": pmin,
+            case = normalise({"est_split": est == "stddev" and sum(mask) % 2 == 1, "R": r_n, "P": p_n, "n": n, "K": 1, "C": 2, "mask": list(mask), "rmin": rmin, "pmin": pmin,
                               "nan_col": nan_col, "estimator": est, "filter": flt, "split": split,
                               "weights": [1.0 + 0.5 * r for r in range(r_n)]})
             info: dict[str, Any] = {"compared": 0, "aborted": False}
@@ -342,7 +346,7 @@ def hypothesis_shard(item: dict[str, Any]) -> Collector:
                 group = list(range(k_n)) if first < k_n else list(range(k_n, k_n + c_n))
                 if len(group) > 1 and draw(st.booleans()):  # the opposite infinity in another column of the same row
                     inf.append([r_i, p_i, draw(st.sampled_from([c for c in group if c != first])), -sign])
-        return normalise({"inf": inf,"R": r_n, "P": p_n, "n": n, "K": k_n, "C": c_n, "mask": mask,
+        return normalise({"est_split": draw(st.booleans()), "inf": inf,"R": r_n, "P": p_n, "n": n, "K": k_n, "C": c_n, "mask": mask,
                           "rmin": draw(st.integers(0, r_n)), "pmin": draw(st.integers(1, p_n)),
                           "nan_col": draw(st.integers(0, k_n + c_n - 1)), "estimator": est,
                           "filter": draw(st.sampled_from(["none", "none", "sort", "cvar"])) if r_n > 1 else "none",
@@ -360,7 +364,7 @@ def hypothesis_shard(item: dict[str, Any]) -> Collector:
 
 def shards(tier: str, seed: int) -> list[dict[str, Any]]:
     items: list[dict[str, Any]] = []
-    rp = [(1, 1), (1, 2), (2, 1), (2, 2)] if tier == "quick" else [(r, p) for r in (1, 2, 3) for p in (1, 2, 3)]
+    rp = [(1, 1), (1, 2), (2, 1), (2, 2), (3, 1), (3, 2)] if tier == "quick" else [(r, p) for r in (1, 2, 3) for p in (1, 2, 3)]
     for r_n, p_n in rp:
         bits = r_n + r_n * p_n
         parts = 1 if bits <= 4 else (8 if bits <= 6 else (16 if bits <= 9 else 64))  # noqa: PLR2004
